@@ -242,6 +242,30 @@ def make_unit(iset, cube_name, cube_pred, memarch='PMSA', nregions=1, props=('C1
                         return k
                 return v
             for r in rows:
+                if r.opfields is not None:
+                    # operation verified at function level (props/c03.py, loop cut): here decode must hand exactly the
+                    # architectural fields to the execute() of the verified abstract class
+                    from spec.cpu import Cpu
+                    f = r.extract(instr)
+                    base = Cpu(dict(init), 'arm' if iset == 'arm' else 'thumb', instr, oplen)
+                    d_unpred = lor(r.sbz_violated(instr), r.unpred(f, base) if r.unpred is not None else False)
+                    skip = lor(lnot(r.match(instr)), d_unpred, unpred)
+                    named = []
+                    for k, v in r.opfields(f).items():
+                        got = eo.attrs.get(k)
+                        if isinstance(v, bool) or isinstance(v, sym.SymBool) or isinstance(got, (bool, sym.SymBool)):
+                            named.append((k, lor(skip, sym.eq(sym.truth(got), sym.truth(v)))))
+                        else:
+                            named.append((k, lor(skip, values_eq(got, v))))
+                    ob = eng.oblige_all('decode.fields', '%s: decoded operands == architectural fields of the encoding' % tag, named)
+                    ob.props = [r.family or fam, dprop]
+                    import importlib
+                    absmod = importlib.import_module('props.c03')
+                    K = absmod.klass(r.exec_class)
+                    ob = eng.oblige('decode.exec', '%s: runs the execute() of %s verified at function level' % (tag, r.exec_class),
+                                    getattr(eo.cls, 'execute', None) is K.execute)
+                    ob.props = [r.family or fam]
+                    continue
                 st0 = dict(init)
                 st0['mem'] = mem.init
                 exp, s_unpred, s_undef = SS.spec_step(r, st0, instr, 'arm' if iset == 'arm' else 'thumb', oplen, fix=fix)
